@@ -638,6 +638,15 @@ func (r *Runner) runStep(sc *Scenario, i int, step Step, w *world, M, srcDir, ou
 	cmdline := "moq " + strings.Join(args, " ")
 	tr("step %d: %s [prior=%s] -> exit %d, faults fired %v, -out %s", i, cmdline, w.prior, act.Exit, fired, describeOut(postExists || preIsDir, postBytes, ref.Stdout))
 
+	if crashed {
+		// a killed process promises nothing (used to manufacture prior states)
+		if postExists && !bytes.Equal(postBytes, preBytes) {
+			w.prior = "torn"
+		}
+		st.Outcomes["crashed"]++
+		w.lastRun, w.touched = copyStep(step), true
+		return
+	}
 	// C18: nothing but -out and the directories leading to it
 	// a temporary file may stay behind only if the attempt to remove it was
 	// itself failed by injection (nothing can clean up then)
@@ -672,15 +681,6 @@ func (r *Runner) runStep(sc *Scenario, i int, step Step, w *world, M, srcDir, ou
 		if !allowedPath(e, outAbs) && !(w.outReal != "" && allowedPath(e, w.outReal)) {
 			add(i, "C18", "mutation-outside-out", e.Prim, "%s performed %s on %s", cmdline, e.Prim, relTo(M, e.Path))
 		}
-	}
-	if crashed {
-		// a killed process promises nothing (used to manufacture prior states)
-		if postExists && !bytes.Equal(postBytes, preBytes) {
-			w.prior = "torn"
-		}
-		st.Outcomes["crashed"]++
-		w.lastRun, w.touched = copyStep(step), true
-		return
 	}
 	checkFailure("-out mode", act, args)
 	faultOnOut := false
